@@ -93,8 +93,10 @@ class Spy(object):
         self.blocked_at_done = {}   # seq -> what the owner was blocked in when its response finished dispatching
         self.done_by = {}
         self.awaiting = {}      # task id -> stack of seqs it is synchronously waiting for
+        self.missed = []        # (time, task id): parked on the receive condition at an instant when nothing can notify it
         conn._channel = ChanSpy(conn._channel, self)
         conn._recv_event = CondSpy(conn._recv_event, self)
+        sim.idle_hooks.append(self._idle)
         orig_dispatch = conn._dispatch
         orig_seq = conn._get_seq_id
 
@@ -144,6 +146,28 @@ class Spy(object):
                             self.blocked_at_done[seq] = (w[0] if w else ("run" if t.state != core.BLOCKED else t.what), bool(w and w[1]))
         conn._dispatch = _dispatch
         conn._get_seq_id = _get_seq_id
+
+    def _idle(self, sim):
+        """runs when every task is blocked.  A thread parks on the receive condition only because another thread holds the
+        receive lock, and that thread notifies right after releasing it - so 'everybody blocked, somebody parked on the
+        condition, receive lock free' means a wake-up was missed (independent of the known release/dispatch window, whose
+        stalls are spent inside channel.poll or behind a thread that does hold the lock)"""
+        lk = self.conn._recvlock
+        held = getattr(lk, "held", None)
+        if held is None:
+            held = bool(getattr(lk, "count", 1))
+        if not held and not self.conn.closed:
+            for tid, w in self.waiting.items():
+                if w[0] == "cond.wait" and sim.tasks[tid].state == core.BLOCKED and (not self.missed or self.missed[-1][1] != tid):
+                    self.missed.append((sim.now, tid, sim.tasks[tid].deadline))
+        return False
+
+    def check_missed(self):
+        if self.missed:
+            t, tid, dl = self.missed[0]
+            raise core.Violation("missed-wakeup", "at t=%.3f every thread is blocked, task %s is parked in Condition.wait on the receive condition "
+                                 "(until t=%s) and nobody holds the receive lock: no notification can arrive before its timeout or further "
+                                 "traffic" % (t, self.sim.tasks[tid].name, dl))
 
     def last_seq_of(self, tid):
         best = None
